@@ -200,13 +200,15 @@ Definition case_gen (l : list sexp) : sexp :=
       | Some d =>
           let po := run_pipeline d in
           let evs := SList (List.map enc_event (po_events po)) in
+          (* the hypothesis of the no-panic theorem, reported with every run *)
+          let wf := sx_tag "wf" [sx_bool (dump_wf_b d)] in
           match po_result po with
           | Ok bs => sx_tag "ok" [evs; SList (List.map enc_block bs);
-                                  SList (List.map (fun g => SList (List.map enc_comment g)) (base_groups (po_store po) bs))]
-          | Err m => sx_tag "err" [evs; Atom m]
-          | Panic s => sx_tag "panic" [evs; Atom s]
-          | Fuel => sx_tag "fuel" [evs]
-          | Unsup w => sx_tag "unsup" [evs; Atom w]
+                                  SList (List.map (fun g => SList (List.map enc_comment g)) (base_groups (po_store po) bs)); wf]
+          | Err m => sx_tag "err" [evs; Atom m; wf]
+          | Panic s => sx_tag "panic" [evs; Atom s; wf]
+          | Fuel => sx_tag "fuel" [evs; wf]
+          | Unsup w => sx_tag "unsup" [evs; Atom w; wf]
           end
       end
   | _ => sx_err "gen"
